@@ -18,6 +18,7 @@ Line protocol (see `harness/src/scen_cw3fixed.rs`):
 message language: `bank:to:amt:denom  sx:id  sc:id  sv:id:vote  sp:latest  other:tag  nc:tag`.
 -/
 -- SCENARIO cw3fixed Cw3Fixed.scen
+-- SCENARIO cw3fixedwide Cw3Fixed.scen
 namespace CwPlus.Driver.Cw3Fixed
 open CwPlus Wire Driver CwPlus.Cw3 CwPlus.Cw3Core CwPlus.Cw3Fixed
 
